@@ -420,3 +420,49 @@ func vcallAnonOrSkip(s *Server, c *vhConn) {
 	}
 	vcallAnon("(*Server).netServe", s, net.Conn(c))
 }
+
+// VH_C15_password_set_while_connected: requirepass is switched on at run time (CONFIG SET) while a connection is
+// open: from the next command on that connection is served only after AUTH with the right password - whoever set
+// the password, this connection or another one. The REAL connection closure of netServe serves the packets.
+//verif:cfg use=c08 b_connection=opened_while_no_password_is_set b_password_set_by=this_connection|another_connection b_then=GET|SET|AUTH_wrong+GET|AUTH_right+GET ignorego=1
+func VH_C15_password_set_while_connected() {
+	s := vhAckServer()
+	vhDo(s, "SET", "fleet", "truck1", "POINT", "1", "2")
+	self := vnondetBool()
+	var packets [][]byte
+	if self {
+		packets = append(packets, vhEncode("CONFIG", "SET", "requirepass", "pw"))
+	} else {
+		packets = append(packets, vhEncode("PING")) // the connection is open and has been served before ...
+	}
+	k := vchoose(4)
+	switch k {
+	case 0:
+		packets = append(packets, vhEncode("GET", "fleet", "truck1"))
+	case 1:
+		packets = append(packets, vhEncode("SET", "fleet", "truck2", "POINT", "3", "4"))
+	case 2:
+		packets = append(packets, vhEncode("AUTH", "px"), vhEncode("GET", "fleet", "truck1"))
+	default:
+		packets = append(packets, vhEncode("AUTH", "pw"), vhEncode("GET", "fleet", "truck1"))
+	}
+	c := &vhConn{s: s, id: 0, packets: packets}
+	if !self {
+		// ... and another client sets the password after this connection's first command was answered
+		c.afterFirst = func() { s.config._requirePass = "pw" }
+	}
+	before := vhSnapshot(s)
+	vcallAnonOrSkip(s, c)
+	last := ""
+	if len(c.outs) > 0 {
+		last = c.outs[len(c.outs)-1]
+	}
+	vobs("pwset", self, k, len(c.outs))
+	vassert("C15.every_command_answered", len(c.outs) == len(packets))
+	if k == 3 {
+		vassert("C15.right_password_is_served", !vhIsErrorReply(last, false))
+	} else {
+		vassert("C15.open_connection_is_not_grandfathered", vhIsErrorReply(last, false))
+		vassert("C15.unauthenticated_changes_nothing", vhSnapshot(s) == before)
+	}
+}
